@@ -373,6 +373,7 @@ pub fn run_monitor_case(case: &TxCase, stats: &mut Stats, focus: &str) -> Vec<Vi
         m.check_memory = matches!(focus, "C11" | "C25");
         m.trace = std::env::var("VERIF_TRACE").is_ok();
     }
+    let trace = std::env::var("VERIF_TRACE").is_ok();
     let mut nontrivial = false;
     for (i, op) in case.ops.iter().enumerate() {
         let tx = &op.tx;
@@ -493,7 +494,14 @@ pub fn run_monitor_case(case: &TxCase, stats: &mut Stats, focus: &str) -> Vec<Vi
                 }
                 _ => None,
             };
-            if got != Some(U256::from(expect)) {
+            // the probe measures the depth limit only if it ran into it: a history that leaves
+            // it too little gas (colliding CREATE2s each burn 63/64 of the driver's gas, as the
+            // protocol says) ends the recursion by out-of-gas before any CallTooDeep
+            let too_deep_seen = sys.monitor().map(|m| m.too_deep_seen).unwrap_or(true);
+            let short = got.map(|g| g < U256::from(expect)).unwrap_or(true);
+            if short && !too_deep_seen {
+                stats.inc("probe.depth_probe_gas_bound");
+            } else if got != Some(U256::from(expect)) {
                 let class = match got {
                     None => "no-output",
                     Some(g) if g < U256::from(expect) => "less",
@@ -598,6 +606,12 @@ pub fn run_monitor_case(case: &TxCase, stats: &mut Stats, focus: &str) -> Vec<Vi
                 }
                 burn += u512(bfee);
                 // ether held at the end of the transaction by accounts it deletes
+                if trace {
+                    eprintln!("C08 tx {i}: gas_used {gas_used} eff {eff} burned {burned} sd_wrapped {sd_wrapped}");
+                    for (a, acc) in st.iter() {
+                        eprintln!("  {a} selfdestructed={} result-balance={} pre={} post={}", acc.is_selfdestructed(), acc.info.balance, pre2.balance(a), post.balance(a));
+                    }
+                }
                 for (_, acc) in st.iter() {
                     if acc.is_selfdestructed() {
                         burn += u512(acc.info.balance);
@@ -617,11 +631,14 @@ pub fn run_monitor_case(case: &TxCase, stats: &mut Stats, focus: &str) -> Vec<Vi
                     let dir = if sum_after + burn > sum_before { "created" } else { "destroyed" };
                     // narrow facts for known defect classes
                     // narrow facts for the known "total supply above 2^256" defect class
+                    // (balances as the transaction left them: a saturated beneficiary or sender
+                    // that the same transaction also self-destructed is gone from the disk)
+                    let end_balance = |a: &Address| st.get(a).map(|acc| acc.info.balance).unwrap_or_else(|| post.balance(a));
                     let site = if sd_wrapped {
                         "selfdestruct-credit-wrap"
-                    } else if post.balance(&block.coinbase) == U256::MAX {
+                    } else if end_balance(&block.coinbase) == U256::MAX {
                         "reward-saturation"
-                    } else if post.balance(&tx.caller) == U256::MAX {
+                    } else if end_balance(&tx.caller) == U256::MAX {
                         "reimburse-saturation"
                     } else {
                         "none"
